@@ -2,6 +2,7 @@
    nested_tables, the position sort, visit_table) on a constructed tree prints the lines of
    Proofs/BuiltRTDocParse.v: for every table in preorder its header (a blank line before every header
    but the first thing printed), then its key/value lines. *)
+From TV Require Import Proofs.EncodeHeader.
 From TV Require Import Base.Prelude Base.Utf8 Base.Winnow Gen.Consts.
 From TV Require Import Model.Datetime Model.Numbers Model.Tree Model.Parse Model.Document Model.Write Model.Encode Model.Build.
 From TV Require Import Proofs.BuiltRTEncode Proofs.BuiltRTParse Proofs.BuiltRTValue Proofs.BuiltRTDocParse.
@@ -196,6 +197,10 @@ Section Visit.
       assert (Evis : negb (t_implicit (render_tbl ftext (the_tbl l pos)) && match children with [] => true | _ => false end) = true)
         by reflexivity.
       rewrite Evis. rewrite <- Ep. clear Ep Evis.
+      (* keys made by Key::new have no decor: the header is printed as encode_key_path prints it *)
+      assert (Hb : leaf_blank (map key_new (k0 :: P')) = true).
+      { apply leaf_blank_default. intros k Hk. apply in_map_iff in Hk as (x & <- & _). reflexivity. }
+      destruct (header_blank (map key_new (k0 :: P')) DEFAULT_KEY_PATH_DECOR Hb) as [Hh Hc]. rewrite Hh, Hc. clear Hb Hh Hc.
       assert (Edec : t_decor (render_tbl ftext (the_tbl l pos)) = decor_default) by reflexivity. rewrite Edec.
       unfold decor_prefix, decor_suffix. cbn [d_prefix d_suffix decor_default].
       destruct a, first; cbn [fst snd DEFAULT_TABLE_DECOR]; unfold lines_txt; cbn [map concat line_txt app];
